@@ -26,19 +26,23 @@ structure MeshSvc where
   ns : String := ""
   ports : List Nat := []
   addr : String := ""
+  aliases : List String := []    -- `Attributes.Aliases`: ExternalName services that point to this one
   deriving Repr
 
 /-- One `Sidecar.egress[].hosts` entry `namespace/dnsName` (`*` any namespace, `.` the Sidecar's own). -/
 structure EgressHost where
   ns : String
   host : String
+  excl : Bool := false     -- `~namespace/dnsName`: an exclusion
   deriving Repr
 
 structure Mesh where
   svcs : List MeshSvc := []
   vss : List VirtualService := []      -- creation order
   sidecarNs : String := ""             -- namespace of the (single) Sidecar resource, "" = none
-  egress : List EgressHost := []
+  egress : List EgressHost := []       -- hosts of its catch-all egress listener
+  egressPort : Nat := 0                -- a port-specific egress listener (0 = none) ...
+  egressPortHosts : List EgressHost := []   -- ... and its hosts
   proxyDomain : String := ""
   built : Bool := false                -- a route configuration was built for the current mesh (driver only)
   deriving Repr
@@ -50,29 +54,65 @@ structure Mesh where
 def EgressHost.selectsNs (e : EgressHost) (own ns : String) : Bool :=
   e.ns == "*" || (if e.ns == "." then own else e.ns) == ns
 
+/-- A `~namespace/dnsName` entry naming the namespace (or `*`) excludes every hostname under `dnsName`. -/
+def excludedBy (es : List EgressHost) (own ns h : String) : Bool :=
+  es.any fun e => e.excl && e.selectsNs own ns && hostSubsetOf h e.host
+
 def svcImported (es : List EgressHost) (own : String) (s : MeshSvc) : Bool :=
-  es.any fun e => e.selectsNs own s.ns &&
+  !excludedBy es own s.ns s.host &&
+  es.any fun e => !e.excl && e.selectsNs own s.ns &&
     (e.host == s.host || ((isWildcarded e.host || isWildcarded s.host) && hostSubsetOf s.host e.host))
 
+/-- A VirtualService is imported through any one of its hosts that an entry matches and no exclusion covers. -/
 def vsImported (es : List EgressHost) (own : String) (v : VirtualService) : Bool :=
-  es.any fun e => e.selectsNs own v.ns &&
-    v.hosts.any fun h => e.host == h || ((isWildcarded e.host || isWildcarded h) && hostMatches h e.host)
+  v.hosts.any fun h => !excludedBy es own v.ns h &&
+    es.any fun e => !e.excl && e.selectsNs own v.ns &&
+      (e.host == h || ((isWildcarded e.host || isWildcarded h) && hostMatches h e.host))
 
-/-- The mesh as a proxy of namespace `pns` sees it. -/
-def scopeMesh (m : Mesh) (pns : String) : Mesh :=
+/-- `matchingAliasService`: a service keeps the aliases that the entries which imported it (those naming its
+    namespace if one of them matches it, else the `*/` ones) match as well. -/
+def aliasesKept (es : List EgressHost) (own : String) (s : MeshSvc) : List String :=
+  let nsE := es.filter (fun e => !e.excl && e.ns != "*" && (if e.ns == "." then own else e.ns) == s.ns)
+  let wE := es.filter (fun e => !e.excl && e.ns == "*")
+  let hit (l : List EgressHost) (h : String) : Bool :=
+    l.any fun e => e.host == h || ((isWildcarded e.host || isWildcarded h) && hostSubsetOf h e.host)
+  if hit nsE s.host then s.aliases.filter (hit nsE) else s.aliases.filter (hit wE)
+
+/-- The mesh as a proxy of namespace `pns` sees it on listener port `port`: the egress listener declared for
+    that port if there is one (`GetEgressListenerForRDS`), else the catch-all listener. -/
+def scopeMesh (m : Mesh) (pns : String) (port : Nat) : Mesh :=
   if m.sidecarNs == "" || m.sidecarNs != pns then m
-  else { m with svcs := m.svcs.filter (svcImported m.egress pns), vss := m.vss.filter (vsImported m.egress pns) }
+  else
+    let es := if m.egressPort != 0 && m.egressPort == port then m.egressPortHosts else m.egress
+    { m with svcs := (m.svcs.filter (svcImported es pns)).map (fun s => { s with aliases := aliasesKept es pns s }),
+             vss := m.vss.filter (vsImported es pns) }
+
+/-- API text of `VirtualService.hosts` / `Destination.host`: "short names ... Istio will interpret the short name
+    based on the namespace of the rule": a name without dots (other than `*` or an IP address) means
+    `<name>.<namespace of the VirtualService>.svc.<cluster domain>` (`ResolveVirtualServiceShortnames`). -/
+def resolveShortname (ns domain h : String) : String :=
+  if h == "*" || h == "" || containsStr "." h || containsStr ":" h then h
+  else h ++ "." ++ ns ++ ".svc." ++ domain
+
+def resolveVS (domain : String) (v : VirtualService) : VirtualService :=
+  { v with hosts := v.hosts.map (resolveShortname v.ns domain),
+           http := v.http.map fun r =>
+             { r with route := r.route.map fun d => { d with dest := { d.dest with host := resolveShortname v.ns domain d.dest.host } } } }
 
 /-- Names of a service as seen from the proxy: label-level rendering of the Kubernetes DNS search
     path for `<name>.<ns>.svc.<suffix>` seen from `<pns>.svc.<suffix>`. -/
-def svcNames (s : MeshSvc) (proxyDomain : String) : List String :=
-  let base := [s.host, s.host ++ "."] ++ (if s.addr != "" && s.addr != "0.0.0.0" then [s.addr] else [])
-  match splitDots s.host, splitDots proxyDomain with
+def hostNames (h : String) (proxyDomain : String) : List String :=
+  let base := [h, h ++ "."]
+  match splitDots h, splitDots proxyDomain with
   | name :: ns :: "svc" :: suffix, pns :: "svc" :: psuffix =>
     if suffix == psuffix && !suffix.isEmpty then
       base ++ [name ++ "." ++ ns, name ++ "." ++ ns ++ ".svc"] ++ (if ns == pns then [name] else [])
     else base
   | _, _ => base
+
+def svcNames (s : MeshSvc) (proxyDomain : String) : List String :=
+  (s.host :: s.aliases).flatMap (fun h => hostNames h proxyDomain)
+    ++ (if s.addr != "" && s.addr != "0.0.0.0" then [ipv6Compliant s.addr] else [])
 
 /-- The longest string of a list (any of them among equals: matching wildcard hosts of equal length
     are equal). -/
